@@ -14,7 +14,10 @@ PROPS_MODULES = ['RTV.Props.C16']
 GEN = ['chartables']
 REQUIRED_THEOREMS = ['tokenizeSimple_slices', 'tokenizeSimple_ordered_disjoint', 'tokenizeSimple_covers',
                      'tokenizeNWU_slices', 'tokenizeNWU_ordered_disjoint', 'tokenizeNWU_covers', 'cov_unique',
-                     'trieFind_spec', 'trieFind_len_pos', 'matcherFind_offsets', 'matcherRun_offsets']
+                     'trieFind_spec', 'trieFind_len_pos', 'matcherFind_offsets', 'matcherRun_offsets',
+                     # the plain statements about find's results (no spanOf / sliceInt / Option in the statement)
+                     'matcherRun_defined', 'matcherRun_results_plain', 'matcherRun_mem_iff', 'matcherSimple_plain',
+                     'matcherNWU_plain', 'matcherSimple_mem_iff', 'matcherNWU_mem_iff']
 RULE = ('tokenizers: every string over {a,1,$,comma,CJK,space} up to length L (quick 5, thorough 7) + seeded strings '
         'over a wider pool (Hangul, kana, Arabic-Indic digit, NBSP, tab, U+0130); matcher: exhaustive tiny '
         'dictionaries/queries + seeded dictionaries (<=30 phrases) and queries (<=40 chars), list and dict init forms; '
@@ -64,8 +67,27 @@ def token_property(s, toks):
     return None
 
 
+def plain_result_property(q, results):
+    """What `matcherRun_results_plain` states, demanded of the real MatchResult objects without looking at any token:
+    in bounds, length >= 1, text == query[start:start+length] (hence non-empty), end == start + length."""
+    for r in results:
+        if not (isinstance(r.start, int) and isinstance(r.length, int)) or isinstance(r.start, bool):
+            return 'start/length are not ints: %r, %r' % (r.start, r.length)
+        if r.start < 0 or r.length < 1 or r.start + r.length > len(q):
+            return 'result (%d, %d) out of bounds of a query of length %d' % (r.start, r.length, len(q))
+        if r.text != q[r.start:r.start + r.length]:
+            return 'result text %r is not query[%d:%d] = %r' % (r.text, r.start, r.start + r.length,
+                                                                q[r.start:r.start + r.length])
+        if r.end != r.start + r.length:
+            return 'result end %r != start + length' % (r.end,)
+    return None
+
+
 def matcher_property(tokenizer, dict_pairs, q, results):
     """Exactly the occurrences of inserted phrases at token boundaries, right offsets/length/text/ids."""
+    plain = plain_result_property(q, results)
+    if plain:
+        return plain
     toks = tokenizer.tokenize(q)
     texts = [t.text for t in toks]
     phrases = [([t.text for t in tokenizer.tokenize(p)], i) for p, i in dict_pairs]
